@@ -100,11 +100,13 @@ class NixList(TypedExpression):
             inner_trivia=inner_trivia,
         )
 
-    def _item_requires_multiline(self, expr: NixExpression) -> bool:
+    def _item_requires_multiline(self, expr: NixExpression, indent: int = 0) -> bool:
         """Detect items that force multiline output to preserve readability."""
         if expr.before or expr.after:
             return True
-        inline_render = expr.rebuild(indent=0, inline=True)
+        # Preview at the indentation the item will really get: nested lists
+        # choose their own layout depending on it.
+        inline_render = expr.rebuild(indent=indent, inline=True)
         return "\n" in inline_render
 
     def _auto_multiline(
@@ -121,7 +123,7 @@ class NixList(TypedExpression):
 
         for item in self.value:
             expr = coerce_expression(item)
-            if self._item_requires_multiline(expr):
+            if self._item_requires_multiline(expr, indent + 2):
                 return True
 
         count = len(self.value)
